@@ -645,6 +645,100 @@ def exec_policy(trace, prop) -> Result:
 
 
 # ---------------------------------------------------------------------------
+# set-level walk (C10): drives Cache / CacheSet directly - "the cache set informs the policy on every
+# read hit, write hit and fill" (cache.py:135-179), also for callers that write a block without
+# reading it first (which the two memory systems never do)
+
+
+def gen_setwalk_trace(seed):
+    from ..core import rng as R
+
+    r = R.stream(seed, "setwalk")
+    strat = r.choice(["lru", "plru"])
+    ways = r.choice([1, 2, 4, 8]) if strat == "plru" else r.choice([1, 2, 3, 4, 5, 7])
+    ib = r.choice([0, 0, 1, 2])
+    bb = r.choice([0, 0, 1])
+    ntags = ways + r.randint(1, 3)
+    ops = []
+    for _ in range(r.choice([r.randint(1, 8), r.randint(6, 30), r.randint(20, 60)])):
+        tag = r.randrange(ntags)
+        idx = r.randrange(1 << ib)
+        addr = ((tag << ib | idx) << (bb + 2)) + 4 * r.randrange(1 << bb)
+        k = r.random()
+        if k < 0.45:
+            ops.append(["RB", addr])  # Cache.read_block
+        elif k < 0.9:
+            ops.append(["WB", addr])  # Cache.write_block (hit or fill), no read before it
+        else:
+            ops.append(list(ops[-1]) if ops else ["RB", addr])  # the same block twice in a row
+    return {"config": {"kind": "setwalk", "strat": strat, "ways": ways, "ib": ib, "bb": bb}, "ops": ops}
+
+
+def exec_setwalk(trace, prop) -> Result:
+    from architecture_simulator.uarch.memory.cache import Cache
+    from architecture_simulator.uarch.memory.decoded_address import DecodedAddress
+    from architecture_simulator.uarch.memory.replacement_strategies import LRU, PLRU
+
+    cfg = trace["config"]
+    res = Result()
+    hs = Hasher()
+    ways, ib, bb = cfg["ways"], cfg["ib"], cfg["bb"]
+    try:
+        cache = Cache(ib, bb, ways, LRU if cfg["strat"] == "lru" else PLRU)
+    except Exception as e:  # noqa: BLE001
+        res.violate("C10", "cache-constructor-raised", got=type(e).__name__, config=cfg)
+        res.digest = "ctor"
+        return res
+    pols = [RefPolicy(ways, cfg["strat"]) for _ in range(1 << ib)]
+    norm = (lambda rep: [bool(x) for x in rep]) if cfg["strat"] == "plru" else (lambda rep: [int(x) for x in rep])
+    counter = 0
+    for i, op in enumerate(trace["ops"]):
+        da = DecodedAddress(ib, bb, op[1])
+        k = da.cache_set_index
+        st = cache.sets[k]
+        pre = [(bool(b.valid_bit), b.decoded_address.tag) for b in st.blocks]
+        way_hit = next((j for j, (v, t) in enumerate(pre) if v and t == da.tag), None)
+        try:
+            if op[0] == "RB":
+                out = cache.read_block(da)
+                got_hit = out is not None
+            else:
+                counter += 1
+                hit, _disp = cache.write_block(da, [counter] * (1 << bb))
+                got_hit = bool(hit)
+        except Exception as e:  # noqa: BLE001
+            res.violate("C10", "cache-raised", at=i, got=type(e).__name__, op=op)
+            break
+        post = [(bool(b.valid_bit), b.decoded_address.tag) for b in st.blocks]
+        hs.add(i, op, got_hit, post)
+        if way_hit is not None:
+            pols[k].touch(way_hit)
+            res.probes["set walk: " + ("read hit" if op[0] == "RB" else "write hit without a preceding read")] += 1
+        elif op[0] == "WB":
+            way_new = next((j for j, (v, t) in enumerate(post) if v and t == da.tag), None)
+            want = pols[k].victim()
+            if way_new != want:
+                res.violate("C10", "wrong-victim", at=i, expected=want, got=way_new, op=op, set=k, policy_state=pols[k].repr())
+                break
+            pols[k].touch(want)
+            res.probes["set walk: fill"] += 1
+        for kk, s2 in enumerate(cache.sets):
+            rep = norm(s2.replacement_strategy.get_repr())
+            if rep != pols[kk].repr():
+                res.violate("C10", "policy-state", at=i, expected=pols[kk].repr(), got=rep, op=op, set=kk,
+                            note="set-level walk: Cache.read_block / Cache.write_block driven directly")
+                break
+        if res.violations:
+            break
+        res.states.add(hash((cfg["strat"], ways, tuple(tuple(norm(s2.replacement_strategy.get_repr())) for s2 in cache.sets))))
+    res.violations = [v for v in res.violations if v["property"] == prop]
+    res.sim["operations"] += len(trace["ops"])
+    res.nontrivial = len(trace["ops"]) >= 3 and ways >= 2
+    res.digest = hs.hexdigest()
+    return res
+
+
+# ---------------------------------------------------------------------------
 # batches
 
 
@@ -656,6 +750,8 @@ def _describe(trace):
             return f"{op[0]}{op[1]}@0x{op[2] & MASK32:X}=0x{op[3]:X}" + ("" if 0 <= op[2] < 2**32 else f" [raw {op[2]}]")
         if op[0] == "A":
             return f"access({op[1]})"
+        if op[0] in ("RB", "WB"):
+            return f"{'read_block' if op[0] == 'RB' else 'write_block'}(0x{op[1]:X})"
         return op[0]
 
     return {"config": trace["config"], "ops": [fmt(o) for o in trace["ops"]]}
@@ -760,6 +856,24 @@ class PolicyWalks(_MemBatch):
     def shrink(self, trace, prop, still_fails, budget):
         mk = lambda ops: {**trace, "ops": ops}  # noqa: E731
         return mk(ddmin_list(trace["ops"], still_fails, budget, rebuild=mk))
+
+
+class SetWalks(_MemBatch):
+    def __init__(self, name, runs_quick, runs_thorough):
+        self.name = name
+        self.runs_quick = runs_quick
+        self.runs_thorough = runs_thorough
+
+    def generate(self, seed):
+        return gen_setwalk_trace(seed)
+
+    def execute(self, trace, prop):
+        return exec_setwalk(trace, prop)
+
+    def shrink(self, trace, prop, still_fails, budget):
+        mk = lambda ops: {**trace, "ops": ops}  # noqa: E731
+        return mk(ddmin_list(trace["ops"], still_fails, budget, rebuild=mk))
+
 
 
 # ---------------------------------------------------------------------------
